@@ -1,4 +1,5 @@
 import Dtr.Proofs.ScopeDiscipline
+import Dtr.Proofs.AfterErrorBasic
 import Dtr.Model.RowIter
 /-!
 # C18 — `vars()` reports the variables in scope at the row just yielded
@@ -95,6 +96,44 @@ theorem C18_vars_after_row {δ : Type} (tc : TestCase) (drv : Driver δ) (fuel :
     · split at h
       · cases h
       · cases h; rfl
+
+/-- **Behind an error item of the IO step** — a driver error, an answer of the wrong shape, a virtual signal
+that cannot be evaluated — `vars()` is still the flattening of the variable store as `get_row` left it:
+the stores are swapped back also when the answer is refused. -/
+theorem C18_vars_behind_io_error {δ : Type} (tc : TestCase) (drv : Driver δ) (fuel : Nat) (s s' : RowIt) (d d' : δ)
+    (e : IterErr) (calls : List Call) (hc : calls ≠ [])
+    (h : s.nextC tc drv fuel d = .item (.err e) s' d' calls) :
+    ∃ ev sg, getRow tc fuel s = .row ev sg ∧ s'.vars = sg.ctx.vars.flatten := by
+  unfold RowIt.nextC at h
+  split at h
+  · simp only [NextOut.item.injEq] at h; exact absurd h.2.2.2.symm hc
+  · cases h
+  · cases h
+  · cases h
+  · next ev sg hg =>
+    refine ⟨ev, sg, hg, ?_⟩
+    split at h
+    · split at h
+      · simp only [NextOut.item.injEq] at h; rw [← h.2.1]; rfl
+      · next d1 outs hrw =>
+        simp only at h
+        split at h
+        · cases h
+        · simp only [NextOut.item.injEq] at h
+          rw [← h.2.1]
+          simp only [RowIt.vars]
+          unfold extractCtxAfter
+          split <;> rfl
+        · cases h
+    · split at h
+      · simp only [NextOut.item.injEq] at h; rw [← h.2.1]; rfl
+      · cases h
+
+/-- **A statement that cannot be evaluated changes no variable**: in the state a failing turn of the statement
+iterator leaves behind, the variable stores and the outputs are what they were (only the generator has moved). -/
+theorem C18_eval_error_keeps_variables (it : It) (c : Ctx) :
+    (stepPost it c).2.vars = c.vars ∧ (stepPost it c).2.alt = c.alt ∧ (stepPost it c).2.outs = c.outs :=
+  stepPost_fields it c
 
 /-- draining expansions does not touch the context -/
 theorem C18_expansion_keeps_context (tc : TestCase) (fuel : Nat) (s sg : RowIt) (ev : EvRow)
